@@ -547,6 +547,9 @@ def check_arrays(out, facts):
         alts = [x for x in sym.walk(body) if x[0] == 'alt']
         G = array_guard(facts)
         cond = guard_canon(sym.vstr(alts[0][1][1]) if alts else '', G)
+        nc_ = norm_cmp(alts[0][1][1]) if alts and isinstance(alts[0][1], tuple) and alts[0][1][0] == 'if' else None
+        if nc_ and nc_[0] == 'Gt' and guard_canon(sym.vstr(nc_[1]), G) == 'len(mut state.slice)' and guard_canon(sym.vstr(nc_[2]), G) == 'mut state.count':
+            cond = '(mut state.count Lt len(mut state.slice))'      # the same comparison, however it is spelled
         if cond != '(mut state.count Lt len(mut state.slice))':
             why.append('element loop does not run while count < N: ' + cond)
         evs = [e for e in events(body) if e[0] in ('dec', 'SET', '?')]
